@@ -1,7 +1,7 @@
 (* Props/ExplicitSpec.v — property theorem only.  The explicit stage of the model (explicit.rs) agrees
    with rules X1-X8 of the specification on every character that X9 keeps, and gives class BN to the
    ones X9 removes. *)
-From BidiVerif Require Import Base ConstsGen TablesGen ModelText ModelResolve ModelLine Spec Obs Judge Stmts Stmts2.
+From BidiVerif Require Import Base ConstsGen TablesGen ModelText RefDs ModelResolve ModelLine Spec Obs Judge Stmts Stmts2.
 From BidiVerif.Proofs Require Import ExplicitSpec.
 From Coq Require Import Lia.
 
@@ -14,7 +14,7 @@ Proof. exact explicit_agrees_main. Qed.
 Example explicit_agrees_hypotheses_satisfiable :
   let text := [97; 8238; 1488; 8296; 65536; 8297; 8236; 100; 8233]%N in
   let chars := view_of U8 text in
-  let cls0 := map hardcoded_class text in
+  let cls0 := map ucd16_class text in
   let lens := map snd chars in
   let oc := expand lens (reported_classes cls0) in
   (text_view U8 text chars /\ length cls0 = length chars /\
